@@ -70,13 +70,35 @@ def _check_cvc5(smt2, timeout_s, fmf=False):
         path = f.name
     t0 = time.time()
     try:
-        p = subprocess.run([CVC5_BIN, "--strings-exp"] + (["--finite-model-find"] if fmf else []) + [f"--tlimit={timeout_s * 1000}", path],
+        flags = ["--finite-model-find"] if fmf else []
+        if not fmf or "String" in smt2:
+            flags.append("--strings-exp")
+        p = subprocess.run([CVC5_BIN] + flags + [f"--tlimit={timeout_s * 1000}", path],
                            capture_output=True, text=True, timeout=timeout_s + 5)
         out = p.stdout.strip().splitlines()
         r = out[0] if out else "unknown"
         if r not in ("sat", "unsat"):
             r = "unknown"
     except subprocess.TimeoutExpired:
+        r = "unknown"
+    finally:
+        os.unlink(path)
+    return r, time.time() - t0
+
+
+def _check_z3_cli_model(smt2, timeout_s):
+    """z3 5.1 command line with e-matching off: the configuration that finds finite models fastest."""
+    with tempfile.NamedTemporaryFile("w", suffix=".smt2", delete=False, dir=os.environ.get("PYVC_TMP", None)) as f:
+        f.write(smt2)
+        path = f.name
+    t0 = time.time()
+    try:
+        p = subprocess.run(["z3-new", f"-T:{timeout_s}", "smt.ematching=false", path], capture_output=True, text=True, timeout=timeout_s + 5)
+        out = p.stdout.strip().splitlines()
+        r = out[0] if out else "unknown"
+        if r not in ("sat", "unsat"):
+            r = "unknown"
+    except (subprocess.TimeoutExpired, FileNotFoundError):
         r = "unknown"
     finally:
         os.unlink(path)
@@ -103,14 +125,17 @@ def _check_z3_old(smt2, timeout_s):
 
 def solve_one(job):
     """job = (name, smt2, cover, seed, thorough) -> result dict. Runs in a worker process."""
-    name, smt2, cover, seed, thorough = job
+    name, smt2, cover, seed, thorough, scoped = job
     res = dict(name=name, cover=cover, backends={}, model=None)
     if cover:
-        r, dt, model, reason = _check_z3(smt2, 5000, seed, for_model=True)
+        r, dt, model, reason = _check_z3(smt2, 2000, seed)
         res["backends"]["z3-5.1"] = dict(result=r, seconds=round(dt, 3), reason=reason)
         if r == "unknown":
             r, dt = _check_cvc5(smt2, CVC5_TIMEOUT_S, fmf=True)
             res["backends"]["cvc5-1.0.3-fmf"] = dict(result=r, seconds=round(dt, 3))
+        if r == "unknown":
+            r, dt = _check_z3_cli_model(smt2, CVC5_TIMEOUT_S)
+            res["backends"]["z3-5.1-cli-noematch"] = dict(result=r, seconds=round(dt, 3))
         if r == "unknown":
             r, dt, model, reason = _check_z3(smt2, Z3_TIMEOUT_MS, seed)
             res["backends"]["z3-5.1-b"] = dict(result=r, seconds=round(dt, 3), reason=reason)
@@ -121,7 +146,19 @@ def solve_one(job):
     final = r
     if r == "sat":
         res["model"] = model
-    if r == "unknown" or thorough:
+    if final == "unknown":
+        # counter-model search in finite scopes first (fast): the scope axioms only ADD constraints, so sat here is sat there
+        for n, sm in scoped:
+            r4, dt4 = _check_cvc5(sm, 10, fmf=True)
+            res["backends"][f"cvc5-fmf-scope{n}"] = dict(result=r4, seconds=round(dt4, 3))
+            if r4 != "sat":
+                r4, dt4 = _check_z3_cli_model(sm, 10)
+                res["backends"][f"z3-cli-noematch-scope{n}"] = dict(result=r4, seconds=round(dt4, 3))
+            if r4 == "sat":
+                final = "sat"
+                res["scope"] = n
+                break
+    if final == "unknown" or thorough:
         r2, dt2 = _check_cvc5(smt2, CVC5_TIMEOUT_S)
         res["backends"]["cvc5-1.0.3"] = dict(result=r2, seconds=round(dt2, 3))
         if final == "unknown":
@@ -140,7 +177,8 @@ def solve_one(job):
 
 
 def discharge(obls, seed=0, thorough=False, procs=None):
-    jobs = [(o.name, to_smt2(o.hyps, o.goal, o.cover, scope=(5 if o.cover else None)), o.cover, seed, thorough) for o in obls]
+    jobs = [(o.name, to_smt2(o.hyps, o.goal, o.cover, scope=(5 if o.cover else None)), o.cover, seed, thorough,
+             [] if o.cover else [(n, to_smt2(o.hyps, o.goal, False, scope=n)) for n in (3, 5)]) for o in obls]
     if not jobs:
         return []
     procs = procs or min(16, max(1, len(jobs)))
